@@ -112,3 +112,49 @@ package stdmath
 //@ func (*exprBinary).Eval
 //@   requires ctx != nil
 //@   modifies dyn(ctx).*
+
+// ---- what the operators compute (C19; floats as reals, NaN operands excluded) ----
+// a value is true iff it is not zero - negative values included; comparisons and the boolean
+// operators yield exactly 1 or 0
+//@ func truthy
+//@   pure
+//@   ensures result == (val != 0.0)
+//@ func conditionalOp
+//@   pure
+//@   ensures result == (if truth then 1.0 else 0.0)
+//@ func init$and at "conditionalOp(truthy(left) && truthy(right))"
+//@   pure
+//@   ensures result == (if left != 0.0 && right != 0.0 then 1.0 else 0.0)
+//@ func init$or at "conditionalOp(truthy(left) || truthy(right))"
+//@   pure
+//@   ensures result == (if left != 0.0 || right != 0.0 then 1.0 else 0.0)
+//@ func init$not at "conditionalOp(!truthy(f))"
+//@   pure
+//@   ensures result == (if f == 0.0 then 1.0 else 0.0)
+//@ func init$lt at "conditionalOp(left < right)"
+//@   pure
+//@   ensures result == (if left < right then 1.0 else 0.0)
+//@ func init$le at "conditionalOp(left <= right)"
+//@   pure
+//@   ensures result == (if left <= right then 1.0 else 0.0)
+//@ func init$gt at "conditionalOp(left > right)"
+//@   pure
+//@   ensures result == (if left > right then 1.0 else 0.0)
+//@ func init$ge at "conditionalOp(left >= right)"
+//@   pure
+//@   ensures result == (if left >= right then 1.0 else 0.0)
+//@ func init$eq at "conditionalOp(left == right)"
+//@   pure
+//@   ensures result == (if left == right then 1.0 else 0.0)
+//@ func init$add at "return left + right"
+//@   pure
+//@   ensures result == left + right
+//@ func init$sub at "return left - right"
+//@   pure
+//@   ensures result == left - right
+//@ func init$mul at "return left * right"
+//@   pure
+//@   ensures result == left * right
+//@ func init$neg at "return -f"
+//@   pure
+//@   ensures result == 0.0 - f
